@@ -15,7 +15,7 @@ pub fn prop() -> Prop {
     Prop {
         id: "C09",
         level: "fault_enumeration",
-        rule: "fault cases over the C08 parameter space: (a) evaluations of a polynomial of degree in (bound, N) with non-zero leading coefficient, or of a random function, proved honestly under the unchanged declared bound (this is also the 'declared bound below the true degree' case); (b) one revealed layer value replaced by another field element; (c) one remainder coefficient replaced; (d) adaptive remainder substitution R' = R + c*prod(x - x_i) over the distinct final-layer query points; (e) adaptive coset substitution adding c*(x - alpha)*prod(x - x_q) to one queried coset (keeps the queried entries and the folded value); (f) one layer commitment replaced; (g) sub-check understated_bounds: an honest proof for a polynomial of true degree D <= 2^k - 1 verified under every kind of declared bound d < D with the same domain (2^(k-1) < d, d + 1 not a power of two, half of them with d + 1 divisible by folding^layers so that no DegreeTruncation rejection hides the remainder-degree check), including D = d + 1. Oracle: FriVerifier::new(..).and_then(verify) is Err; the unmodified proof must verify first. Non-trivial = the honest counterpart verifies (faults b-f) and the adaptive invariants were checked by the harness; distinct = hash of (instance, parameters, fault, positions).",
+        rule: "fault cases over the C08 parameter space: (a) evaluations of a polynomial of degree in (bound, N) with non-zero leading coefficient, or of a random function, proved honestly under the unchanged declared bound (this is also the 'declared bound below the true degree' case); (b) one revealed layer value replaced by another field element; (c) one remainder coefficient replaced; (d) adaptive remainder substitution R' = R + c*prod(x - x_i) over the distinct final-layer query points; (e) adaptive coset substitution adding c*(x - alpha)*prod(x - x_q) to one queried coset (keeps the queried entries and the folded value); (f) one layer commitment replaced; (g) sub-check understated_bounds: an honest proof for a polynomial of true degree D <= 2^k - 1 verified under every kind of declared bound d < D with the same domain (2^(k-1) < d, d + 1 not a power of two, half of them with d + 1 divisible by folding^layers so that no DegreeTruncation rejection hides the remainder-degree check), including D = d + 1. Oracle: FriVerifier::new(..).and_then(verify) is Err through DefaultVerifierChannel AND through a channel implementing only the required methods of the public VerifierChannel trait (what a downstream verifier's channel looks like); the unmodified proof must verify first. Non-trivial = the honest counterpart verifies (faults b-f) and the adaptive invariants were checked by the harness; distinct = hash of (instance, parameters, fault, positions).",
         assumptions: vec![
             "(a) is probabilistic: the honest prover truncates the over-degree remainder, a false accept needs the truncated part to vanish at a queried point, probability <= N/|E| <= 2^-42 per case",
             "adaptive substitutions are computed from the replayed public coin (same reseed/draw schedule as FriVerifier::new) and are only mounted when feasible (enough remainder coefficients / enough unqueried entries in a coset); feasibility is counted",
@@ -147,7 +147,7 @@ fn run<X: HS, E: FieldElement<BaseField = <X::S as Spec>::B>>(s: &mut Src, rec: 
             },
         };
         let q: Vec<E> = positions.iter().map(|i| evals[*i]).collect();
-        return reject(verify::<X, E>(&p, h.proof, &h.commitments, &q, &positions), "a proof for evaluations that are not of a polynomial within the declared bound", rec);
+        return reject(verify_all::<X, E>(&p, p.bound(), h.proof, &h.commitments, &q, &positions, false), "a proof for evaluations that are not of a polynomial within the declared bound", rec);
     }
 
     // (b)-(f): start from an honest proof that verifies
@@ -155,7 +155,7 @@ fn run<X: HS, E: FieldElement<BaseField = <X::S as Spec>::B>>(s: &mut Src, rec: 
     let evals = evaluate::<X::S, E>(&coeffs, p.blowup);
     let h = prove::<X, E>(&p, &evals, &positions).map_err(|pn| Fail::new(format!("prover-{}", pn.key()), format!("FRI prover panicked: {} ({ctx})", pn.message)))?;
     let q: Vec<E> = positions.iter().map(|i| evals[*i]).collect();
-    match verify::<X, E>(&p, h.proof.clone(), &h.commitments, &q, &positions) {
+    match verify_all::<X, E>(&p, p.bound(), h.proof.clone(), &h.commitments, &q, &positions, true) {
         Verdict::Accept => {},
         other => {
             // C08's subject; here the case is simply not usable
@@ -299,7 +299,7 @@ fn run<X: HS, E: FieldElement<BaseField = <X::S as Spec>::B>>(s: &mut Src, rec: 
         Ok(pf) => pf,
         Err(e) => return Err(Fail::new("harness-fri-reencode", format!("mutated FRI proof does not decode: {e}"))),
     };
-    reject(verify::<X, E>(&p, proof, &commitments, &q, &positions), &what, rec)
+    reject(verify_all::<X, E>(&p, p.bound(), proof, &commitments, &q, &positions, false), &what, rec)
 }
 
 
@@ -373,12 +373,12 @@ fn run_understated<X: HS, E: FieldElement<BaseField = <X::S as Spec>::B>>(s: &mu
     };
     let q: Vec<E> = positions.iter().map(|i| evals[*i]).collect();
     // sanity: under the true bound 2^k - 1 the proof verifies
-    match verify::<X, E>(&p, h.proof.clone(), &h.commitments, &q, &positions) {
+    match verify_all::<X, E>(&p, p.bound(), h.proof.clone(), &h.commitments, &q, &positions, true) {
         Verdict::Accept => {},
         other => return Err(Fail::new("harness-honest-baseline", format!("baseline proof does not verify under the full bound: {other:?} ({ctx})"))),
     }
     rec.nontrivial();
-    match verify_with_bound::<X, E>(&p, d, h.proof, &h.commitments, &q, &positions) {
+    match verify_all::<X, E>(&p, d, h.proof, &h.commitments, &q, &positions, false) {
         Verdict::Accept => Err(Fail::new("fri-accepts:understated_bound", format!("FRI verifier ACCEPTED a polynomial of degree {dd} under the declared bound {d} ({ctx})"))),
         Verdict::Panic(pn) => Err(Fail::new(format!("verifier-{}", pn.key()), format!("FRI verifier panicked under an understated bound: {} at {} ({ctx})", pn.message, pn.location))),
         Verdict::Reject(e) => {
